@@ -1,17 +1,25 @@
 """C16 - svd returns a valid singular value decomposition, pinv the minimum-norm least-squares solution.
 
 (1) TLC (spec/MC_Svd.tla) validates a catalog of matrices given by exact factors A = U Sigma V^H (rational unitary
-    U, V: signed permutations, (1/3)[[1,2,2],[2,1,-2],[2,-2,1]], (1/2) Hadamard, Gaussian unit phases; distinct
-    positive integer singular values; tall / wide / square, real / complex) - unitarity, exact reconstruction - and
-    exports A, Sigma and the exact best rank-k approximation for every k.
+    U, V: signed permutations, (1/3)[[1,2,2],[2,1,-2],[2,-2,1]], (1/2) Hadamard, (1/5)[[3,-4],[4,3]], Gaussian unit
+    phases; distinct positive integer singular values; tall / wide / square, real / complex) - unitarity, exact
+    reconstruction - and exports A, Sigma, the exact best rank-k approximation and the sum of the k smallest triplets
+    for every k.  Part of the catalog are operators DECLARED SelfAdjoint with indefinite spectrum (diag(1,-3,2),
+    symmetric integer / rational matrices, complex Hermitian ones; eigenvalues of mixed sign and unsorted moduli): TLC
+    checks A = V diag(lam) V^H, Sigma = |lam|, U = V sign(lam) (SelfAdjointOK).
     TLC (spec/MC_Pinv.tla) computes the exact minimum-norm least-squares solution x = pinv(A) b for full-rank A of
     every shape class (rational normal equations) and for the structured kinds with their own pinv rule, checks the
-    Moore-Penrose characterisation of x exactly and the modelled structural rules against it.
-(2) spec -> code: `svd(A, k, "LM", alg)` for DenseSVD / Lanczos / Auto on every TLC state: orthonormal columns of U
-    and V, non-negative diagonal Sigma in monotone order, singular values = TLC's, U Sigma V^H = TLC's exact A
-    (all triplets) or TLC's best rank-k approximation (k < min(m,n)); `pinv(A, alg) @ b` for Auto / LSTSQ / CG and
-    the default argument on every TLC case (one and several columns) vs TLC's exact x.
-(3) Seeded larger matrices against NumPy (harness-side predicate, stated in the assumptions)."""
+    Moore-Penrose characterisation of x exactly, the modelled structural rules against it and the scaling law
+    pinv(c A) = pinv(A) / c (LeastSquares.tla!PinvScalingLaw) for every representable scale.
+(2) spec -> code: `svd(A, k, which, alg)` for DenseSVD / Lanczos / Auto on every TLC state ("LM"; declared
+    self-adjoint operators: "LM" and "SM", with and without the annotation): orthonormal columns of U and V,
+    non-negative diagonal Sigma in monotone order, singular values = TLC's, U Sigma V^H = TLC's exact A (all triplets),
+    TLC's best rank-k approximation ("LM") or TLC's sum of the k smallest triplets ("SM"); `pinv(A, alg) @ b` for
+    Auto / LSTSQ / CG and the default argument on every TLC case (one and several columns) vs TLC's exact x, and on
+    scaled copies c A (c = 1e-7, 1e3; float64 and float32 / complex64) vs x / c (the scaling law).
+(3) Seeded larger matrices against NumPy (harness-side predicate, stated in the assumptions); a numeric family of single
+    precision operators (dims 20..60, cond 10..100) for pinv with CG / LSTSQ decided by the projection form of
+    LeastSquares.tla!IsMinNormLsq with tolerance C * eps * cond^2."""
 import json
 import os
 import time
@@ -61,8 +69,9 @@ def make_alg(name, r, cplx, salt):
     return Lanczos(start_vector=v, max_iters=iters, tol=1e-12)
 
 
-def check_svd(A, k, algname, expected, at, case, rp):
-    """expected: dict(sig=[descending floats], recon={r': ndarray}).  Returns violations."""
+def check_svd(A, k, algname, expected, at, case, rp, which="LM", declared=False):
+    """expected: dict(sig=[descending floats], recon={r': ndarray}, tail={r': ndarray} for which = "SM").
+    declared: the operator carries the SelfAdjoint annotation.  Returns violations."""
     cola = _cola()
     from cola.linalg.svd.svd import svd
     m, n = A.shape
@@ -78,7 +87,8 @@ def check_svd(A, k, algname, expected, at, case, rp):
             warnings.simplefilter("ignore")
             with np.errstate(all="ignore"):
                 alg = make_alg(algname, r, np.iscomplexobj(A), case)
-                U, S, Vv = svd(cola.ops.Dense(A), k, "LM", alg)
+                op = cola.SelfAdjoint(cola.ops.Dense(A)) if declared else cola.ops.Dense(A)
+                U, S, Vv = svd(op, k, which, alg)
                 Ud, Sd, Vd = np.asarray(U.to_dense()), np.asarray(S.to_dense()), np.asarray(Vv.to_dense())
     except Exception as e:  # noqa: BLE001
         V("exception", f"{type(e).__name__}: {str(e)[:140]}", **common.exc_info(e))
@@ -105,14 +115,18 @@ def check_svd(A, k, algname, expected, at, case, rp):
     d = np.real(d)
     if not (np.all(np.diff(d) >= -tol) or np.all(np.diff(d) <= tol)):
         V("sigma_order", f"singular values are not in monotone order: {np.round(d, 6).tolist()}", returned=kk)
-    want = np.array(expected["sig"][:kk], dtype=float)
+    small = which == "SM" and kk < r                       # the kk smallest triplets were asked for (and returned)
+    want = np.array(expected["sig"][r - kk:] if small else expected["sig"][:kk], dtype=float)
     if np.abs(np.sort(d)[::-1] - want).max() > tol:
         V("sigma_values", f"singular values {np.round(np.sort(d)[::-1], 6).tolist()}, exact leading ones {want.tolist()}", returned=kk)
     rec = Ud @ Sd @ Vd.conj().T
-    err = np.abs(rec - expected["recon"][kk]).max()
+    err = np.abs(rec - (expected["tail"][kk] if small else expected["recon"][kk])).max()
     if err > 10 * tol:
         if kk == r:
             V("reconstruction", f"max |U Sigma V^H - A| = {err:.3g}", returned=kk)
+        elif small:
+            V("rank_k", f"max |U Sigma V^H - sum of the {kk} smallest triplets| = {err:.3g} "
+              f"(distance to A itself {np.abs(rec - expected['recon'][r]).max():.3g})", returned=kk)
         else:
             V("rank_k", f"max |U Sigma V^H - best rank-{kk} approximation| = {err:.3g} "
               f"(distance to A itself {np.abs(rec - expected['recon'][r]).max():.3g})", returned=kk)
@@ -123,81 +137,126 @@ SVD_ALGS = ("DenseSVD", "Auto", "Lanczos", "Lanczos+")
 
 
 def observe_svd(job):
-    """All k and algorithms for one TLC catalog matrix."""
+    """All k and algorithms for one TLC catalog matrix; declared self-adjoint operators also with which = "SM" and both
+    with and without the SelfAdjoint annotation."""
     cplx = job["complex"]
     A = _arr(job["A"], cplx)
     m, n = A.shape
     r = min(m, n)
     expected = {"sig": [float(s) for s in job["sig"]],
-                "recon": {k: _arr(job["best"][str(k)], cplx) for k in range(1, r + 1)}}
+                "recon": {k: _arr(job["best"][str(k)], cplx) for k in range(1, r + 1)},
+                "tail": {k: _arr(job["tail"][str(k)], cplx) for k in range(1, r + 1)} if job.get("tail") else {}}
+    sa = bool(job.get("sa"))
+    plans = [("LM", False)] + ([("LM", True), ("SM", False), ("SM", True)] if sa else [])
     viol, n_eval = [], 0
-    for k in range(1, r + 1):
-        for algname in SVD_ALGS:
-            at = {"source": "catalog", "shape_class": shape_class(m, n), "dtype": "c128" if cplx else "f64",
-                  "alg": algname, "k": k, "r": r, "full": k == r, "which": "LM", "m": m, "n": n}
-            case = f"svd({job['id']}, k={k}, {algname})"
-            rp = {"svd_job": {kk: job[kk] for kk in ("id", "A", "sig", "best", "complex")}, "k": k, "alg": algname}
-            viol += check_svd(A, k, algname, expected, at, case, rp)
-            n_eval += 1
+    for which, declared in plans:
+        for k in range(1, r + 1):
+            for algname in SVD_ALGS:
+                at = {"source": "catalog", "shape_class": shape_class(m, n), "dtype": "c128" if cplx else "f64",
+                      "alg": algname, "k": k, "r": r, "full": k == r, "which": which, "m": m, "n": n,
+                      "declared": "SelfAdjoint" if declared else "none", "hermitian": sa,
+                      "indefinite": bool(job.get("indefinite")), "negative_dominates": bool(job.get("negdom"))}
+                case = f"svd({'SelfAdjoint(' if declared else ''}{job['id']}{')' if declared else ''}, k={k}, {which}, {algname})"
+                rp = {"svd_job": {kk: job.get(kk) for kk in ("id", "A", "sig", "best", "tail", "complex", "sa", "indefinite", "negdom")},
+                      "k": k, "alg": algname, "which": which, "declared": declared}
+                viol += check_svd(A, k, algname, expected, at, case, rp, which=which, declared=declared)
+                n_eval += 1
     return viol, n_eval
 
 
-def build_op(kind, params, A, cplx):
+PREC = {("f64", False): np.float64, ("f64", True): np.complex128, ("f32", False): np.float32, ("f32", True): np.complex64}
+DTNAME = {("f64", False): "f64", ("f64", True): "c128", ("f32", False): "f32", ("f32", True): "c64"}
+SCALES = {"1": 1.0, "1e-7": 1e-7, "1e3": 1e3}
+# the operator of the catalog and its variants (scale, precision): the exact expected value of a scaled copy follows from
+# TLC's x by the scaling law pinv(c A) = pinv(A) / c (LeastSquares.tla!PinvScalingLaw, checked by TLC where representable)
+PINV_VARIANTS = (("1", "f64"), ("1", "f32"), ("1e-7", "f64"), ("1e-7", "f32"), ("1e3", "f64"), ("1e3", "f32"))
+SCALABLE_KINDS = ("Dense", "Diagonal", "ScalarMul")
+# tolerances (relative to 1 + max |x|, after undoing the scale): measured errors of the unchanged tree / of seeded changes
+# are listed in ASSUMPTIONS
+PINV_TOL = {("f64", "CG"): 1e-6, ("f64", "dense"): 1e-9, ("f32", "CG"): 1e-4, ("f32", "dense"): 1e-5}
+
+
+def build_op(kind, params, A, cplx, prec="f64", sc=1.0):
+    """A: the (already scaled and typed) dense matrix; structured kinds are rebuilt from their scaled parameters."""
     cola = _cola()
-    dt = np.complex128 if cplx else np.float64
+    dt = PREC[(prec, cplx)]
     n = A.shape[1]
     if kind == "Dense":
         return cola.ops.Dense(A)
     if kind == "Identity":
         return cola.ops.Identity((n, n), dt)
     if kind == "ScalarMul":
-        c = complex(*params["c"])
+        c = complex(*params["c"]) * sc
         return cola.ops.ScalarMul(c if cplx else c.real, (n, n), dt)
     if kind == "Diagonal":
-        d = np.array([complex(*x) for x in params["diag"]])
+        d = np.array([complex(*x) for x in params["diag"]]) * sc
         return cola.ops.Diagonal(d.astype(dt) if cplx else d.real.astype(dt))
     if kind == "Permutation":
         return cola.ops.Permutation(np.array(params["perm"]) - 1, dt)
     raise ValueError(kind)
 
 
-def make_pinv_alg(name):
+def make_pinv_alg(name, prec="f64"):
     from cola.linalg.algorithm_base import Auto
     from cola.linalg.inverse.cg import CG
     from cola.linalg.inverse.pinv import LSTSQ
-    return {"Auto": Auto, "LSTSQ": LSTSQ, "CG": lambda: CG(tol=1e-13, max_iters=200), "default": lambda: None}[name]()
+    cg = (lambda: CG(tol=1e-13, max_iters=200)) if prec == "f64" else (lambda: CG(tol=1e-6, max_iters=200))
+    return {"Auto": Auto, "LSTSQ": LSTSQ, "CG": cg, "default": lambda: None}[name]()
 
 
 PINV_ALGS = ("default", "Auto", "LSTSQ", "CG")
 
 
+def jitter_signature(A, b, x, xs):
+    """Diagnostic only: is the error x - xs a positive multiple t of A^H b (an operator inverse + t*I applied to A^H b)?"""
+    g = A.conj().T @ b
+    e = x - xs
+    den = float(np.vdot(g, g).real)
+    if den == 0 or not np.all(np.isfinite(e)):
+        return None
+    t = float(np.vdot(g, e).real) / den
+    if t > 0 and np.linalg.norm(e - t * g) <= 0.05 * np.linalg.norm(e):
+        return t
+    return None
+
+
 def observe_pinv(job):
-    """One matrix with all its right-hand sides: each alone and all at once, every algorithm."""
+    """One matrix (or a scaled / single-precision copy of it) with all its right-hand sides: each alone and all at
+    once, every algorithm."""
     cola = _cola()
     cplx = job["complex"]
-    A = _arr(job["A"], cplx)
+    scn, prec = job.get("scale", "1"), job.get("prec", "f64")
+    sc = SCALES[scn]
+    dt = PREC[(prec, cplx)]
+    A0 = _arr(job["A"], cplx)
+    A = (A0 * sc).astype(dt)
     m, n = A.shape
-    B = np.stack([_arr(c["b"], cplx)[:, 0] for c in job["cols"]], 1)
-    X = np.stack([_arr(c["x"], cplx)[:, 0] for c in job["cols"]], 1)
+    B0 = np.stack([_arr(c["b"], cplx)[:, 0] for c in job["cols"]], 1)
+    B = B0.astype(dt)
+    X0 = np.stack([_arr(c["x"], cplx)[:, 0] for c in job["cols"]], 1)
+    X = X0 / sc                                                   # scaling law
+    variant = (scn, prec) != ("1", "f64")
     viol, n_eval = [], 0
     for algname in PINV_ALGS:
-        at = {"source": "catalog", "kind": job["kind"], "alg": algname, "shape_class": shape_class(m, n),
-              "dtype": "c128" if cplx else "f64", "m": m, "n": n}
-        tol = 1e-6 if algname == "CG" else 1e-9
+        at = {"source": "catalog_scaled" if variant else "catalog", "kind": job["kind"], "alg": algname,
+              "shape_class": shape_class(m, n), "dtype": DTNAME[(prec, cplx)], "scale": scn, "m": m, "n": n}
+        tol = PINV_TOL[(prec, "CG" if algname == "CG" else "dense")]
         for mode in ("single", "multi"):
-            items = [(j, B[:, j], X[:, j]) for j in range(B.shape[1])] if mode == "single" else [(-1, B, X)]
-            for j, b, xs in items:
+            items = [(j, B[:, j], X[:, j], X0[:, j]) for j in range(B.shape[1])] if mode == "single" else [(-1, B, X, X0)]
+            for j, b, xs, xs0 in items:
                 n_eval += 1
-                case = f"pinv({job['mat']}, {algname}) @ " + (job["cols"][j]["id"].split("/")[-1] if j >= 0 else f"[{B.shape[1]} columns]")
+                mat = job["mat"] + ("" if not variant else f" * {scn} [{DTNAME[(prec, cplx)]}]")
+                case = f"pinv({mat}, {algname}) @ " + (job["cols"][j]["id"].split("/")[-1] if j >= 0 else f"[{B.shape[1]} columns]")
                 rp = {"pinv_job": job, "alg": algname, "column": j}
                 a = dict(at, columns=1 if j >= 0 else B.shape[1])
                 try:
                     with warnings.catch_warnings():
                         warnings.simplefilter("ignore")
-                        op = build_op(job["kind"], job["params"], A, cplx)
-                        alg = make_pinv_alg(algname)
-                        P = cola.linalg.pinv(op) if alg is None else cola.linalg.pinv(op, alg)
-                        x = np.asarray(P @ b)
+                        with np.errstate(all="ignore"):
+                            op = build_op(job["kind"], job["params"], A, cplx, prec, sc)
+                            alg = make_pinv_alg(algname, prec)
+                            P = cola.linalg.pinv(op) if alg is None else cola.linalg.pinv(op, alg)
+                            x = np.asarray(P @ b)
                 except Exception as e:  # noqa: BLE001
                     viol.append(Violation(PROP, "exception", case, dict(a, **common.exc_info(e)),
                                           f"{type(e).__name__}: {str(e)[:140]}", replay=rp))
@@ -205,13 +264,19 @@ def observe_pinv(job):
                 if x.shape != xs.shape:
                     viol.append(Violation(PROP, "shape", case, a, f"pinv(A) @ b has shape {x.shape}, expected {xs.shape}", replay=rp))
                     continue
-                err = np.abs(x - xs).max() if np.all(np.isfinite(x)) else float("inf")
-                if not err <= tol * (1 + np.abs(xs).max()):
-                    res_opt = np.linalg.norm(A @ xs - b)
+                x = x.astype(np.complex128 if cplx else np.float64)
+                # compared after undoing the scale: x * c against TLC's exact pinv(A) b
+                err = np.abs(x * sc - xs0).max() if np.all(np.isfinite(x)) else float("inf")
+                if not err <= tol * (1 + np.abs(xs0).max()):
+                    Aw, bw = A.astype(x.dtype), b.astype(x.dtype)
+                    t = jitter_signature(Aw, bw, x, xs) if algname == "CG" else None
+                    if t is not None:
+                        a = dict(a, signature="pinv_plus_multiple_of_adjoint", multiple=float(f"{t:.3g}"))
                     viol.append(Violation(PROP, "pinv_solution", case, a,
-                                          f"max |x - pinv(A) b| = {err:.3g}; ||A x - b|| = {np.linalg.norm(A @ x - b):.6g} "
-                                          f"(minimum {res_opt:.6g}), ||x|| = {np.linalg.norm(x):.6g} (minimum-norm {np.linalg.norm(xs):.6g})",
-                                          replay=rp))
+                                          f"max |c x - pinv(A) b| = {err:.3g} (c = {scn}); ||cA x - b|| = {np.linalg.norm(Aw @ x - bw):.6g} "
+                                          f"(minimum {np.linalg.norm(Aw @ xs - bw):.6g}), ||x|| = {np.linalg.norm(x):.6g} "
+                                          f"(minimum-norm {np.linalg.norm(xs):.6g})"
+                                          + (f"; x = pinv(cA) b + {t:.3g} * (cA)^H b" if t is not None else ""), replay=rp))
     return viol, n_eval
 
 
@@ -283,32 +348,175 @@ def observe_random(spec):
     return viol, n_eval
 
 
+# ------------------------------------------------------------------ numeric family: single precision, cond 10..100
+# Oracle: the floating-point form of LeastSquares.tla!IsMinNormLsq (the predicate TLC proves for PinvSolve on the exact
+# catalog), evaluated in double precision on the single-precision operator that cola received:
+#   (i)  the residual is orthogonal to range(A):   e_lsq = ||Q_A^H (A x - b)|| / (sigma_min ||x||),  Q_A = orth(range A)
+#   (ii) x lies in range(A^H):                     e_mn  = ||x - Q_R Q_R^H x|| / ||x||,              Q_R = orth(range A^H)
+# ||x - pinv(A) b|| / ||x|| <= e_lsq + e_mn (the component of the error in range(A^H) is mapped by A to P_A (A x - b)
+# and stretched by at least sigma_min).  Tolerance NUM_C * eps(dtype) * cond(A)^2 for both algorithms (CG works on the
+# normal equations; LSTSQ is far below).
+NUM_C = 12.0
+NUM_EPS = 2.0 ** -23
+
+
+def numeric_specs(tier, seed):
+    shapes = [(60, 20), (20, 60), (30, 30), (40, 25), (25, 40)]
+    if tier == "thorough":
+        shapes += [(50, 50), (60, 45), (45, 60), (20, 20), (55, 21), (21, 55)]
+    reps = 1 if tier == "quick" else 6
+    specs, i = [], 0
+    for rep in range(reps):
+        for (m, n) in shapes:
+            for cplx in (False, True):
+                for cond in (10, 30, 100):
+                    i += 1
+                    specs.append({"m": m, "n": n, "complex": cplx, "cond": cond,
+                                  "seed": (seed * 1000003 + 7919 * i + m * 131 + n + cond) % (2**31 - 1)})
+    return specs
+
+
+def make_numeric(spec):
+    rng = np.random.RandomState(spec["seed"])
+    m, n, cplx, cond = spec["m"], spec["n"], spec["complex"], spec["cond"]
+    k = min(m, n)
+
+    def rnd(*s):
+        return rng.randn(*s) + (1j * rng.randn(*s) if cplx else 0)
+    U, _ = np.linalg.qr(rnd(m, k))
+    Vm, _ = np.linalg.qr(rnd(n, k))
+    sig = np.geomspace(1.0, 1.0 / cond, k)                       # ||A||_2 = 1, sigma_min = 1 / cond
+    dt = np.complex64 if cplx else np.float32
+    return ((U * sig) @ Vm.conj().T).astype(dt), rnd(m, 2).astype(dt)
+
+
+def projection_predicate(A, b, x):
+    """(e_lsq, e_mn, cond) of the double-precision copies; see the comment above."""
+    wide = np.complex128 if np.iscomplexobj(A) else np.float64
+    A, b, x = A.astype(wide), b.astype(wide), np.asarray(x).astype(wide)
+    sv = np.linalg.svd(A, compute_uv=False)
+    smin, cond = sv[-1], sv[0] / sv[-1]
+    nx = np.maximum(np.linalg.norm(x, axis=0), 1e-300)
+    QA, _ = np.linalg.qr(A if A.shape[0] >= A.shape[1] else np.eye(A.shape[0], dtype=wide))
+    e_lsq = float((np.linalg.norm(QA.conj().T @ (A @ x - b), axis=0) / (smin * nx)).max())
+    e_mn = 0.0
+    if A.shape[0] < A.shape[1]:
+        QR, _ = np.linalg.qr(A.conj().T)
+        e_mn = float((np.linalg.norm(x - QR @ (QR.conj().T @ x), axis=0) / nx).max())
+    return e_lsq, e_mn, float(cond)
+
+
+def observe_numeric(spec):
+    cola = _cola()
+    from cola.linalg.inverse.cg import CG
+    from cola.linalg.inverse.pinv import LSTSQ
+    A, b = make_numeric(spec)
+    m, n, cplx = spec["m"], spec["n"], spec["complex"]
+    viol, n_eval, meas = [], 0, []
+    for algname in ("CG", "LSTSQ"):
+        n_eval += 1
+        case = f"pinv(numeric {m}x{n} {'c64' if cplx else 'f32'} cond={spec['cond']} seed={spec['seed']}, {algname})"
+        a = {"source": "numeric", "kind": "Dense", "alg": algname, "shape_class": shape_class(m, n), "scale": "1",
+             "dtype": "c64" if cplx else "f32", "m": m, "n": n, "columns": 2, "cond": spec["cond"]}
+        rp = {"numeric": spec}
+        try:
+            with warnings.catch_warnings():
+                warnings.simplefilter("ignore")
+                with np.errstate(all="ignore"):
+                    alg = CG() if algname == "CG" else LSTSQ()          # CG: library defaults tol = 1e-6, max_iters = 1000
+                    x = np.asarray(cola.linalg.pinv(cola.ops.Dense(A), alg) @ b)
+        except Exception as e:  # noqa: BLE001
+            viol.append(Violation(PROP, "exception", case, dict(a, **common.exc_info(e)), f"{type(e).__name__}: {str(e)[:140]}",
+                                  replay=rp))
+            continue
+        if x.shape != (n, 2):
+            viol.append(Violation(PROP, "shape", case, a, f"pinv(A) @ b has shape {x.shape}, expected {(n, 2)}", replay=rp))
+            continue
+        if not np.all(np.isfinite(x)):
+            viol.append(Violation(PROP, "nonfinite", case, a, "pinv(A) @ b contains NaN/Inf", replay=rp))
+            continue
+        e_lsq, e_mn, cond = projection_predicate(A, b, x)
+        unit = NUM_EPS * cond * cond
+        meas.append((algname, spec["cond"], e_lsq / unit, e_mn / unit))
+        if e_lsq > NUM_C * unit:
+            viol.append(Violation(PROP, "lsq_projection", case, a,
+                                  f"||P_range(A) (A x - b)|| / (sigma_min ||x||) = {e_lsq:.3g} = {e_lsq / unit:.3g} eps cond^2 "
+                                  f"(cond = {cond:.3g}; tolerance {NUM_C:g} eps cond^2 = {NUM_C * unit:.3g}): x is not a least-squares "
+                                  f"solution", replay=rp))
+        if e_mn > NUM_C * unit:
+            viol.append(Violation(PROP, "min_norm_projection", case, a,
+                                  f"||x - P_range(A^H) x|| / ||x|| = {e_mn:.3g} = {e_mn / unit:.3g} eps cond^2 (tolerance "
+                                  f"{NUM_C * unit:.3g}): x is not the minimum-norm solution", replay=rp))
+    return viol, n_eval, meas
+
+
 # ------------------------------------------------------------------ run / replay
 ASSUMPTIONS = [
-    "NumPy backend only (float64 / complex128); the harness-side backend shim (harness/shim.py) is trusted",
-    "catalog: the exact A, singular values, best rank-k approximations (spec/MC_Svd.tla) and minimum-norm least-squares "
-    "solutions (spec/MC_Pinv.tla, LeastSquares.tla!PinvSolve) are Gaussian rationals computed and validated by TLC; cola's "
-    "floating-point output is compared with tolerance 1e-7*sigma_1 (svd), 1e-9 (pinv dense / structural) and 1e-6 (pinv CG)",
+    "NumPy backend only (float64 / complex128; pinv also float32 / complex64); the harness-side backend shim "
+    "(harness/shim.py) is trusted",
+    "catalog: the exact A, singular values, best rank-k approximations, sums of the k smallest triplets (spec/MC_Svd.tla) and "
+    "minimum-norm least-squares solutions (spec/MC_Pinv.tla, LeastSquares.tla!PinvSolve) are Gaussian rationals computed and "
+    "validated by TLC; cola's floating-point output is compared with tolerance 1e-7*sigma_1 (svd), 1e-9 (pinv dense / "
+    "structural) and 1e-6 (pinv CG)",
     "Lanczos is given an explicit seeded start vector with components along every singular direction, max_iters = the "
     "dimension of the smaller Gram matrix (and that + 3 as `Lanczos+`), tol = 1e-12; best rank-k is unique because the "
     "catalog's singular values are distinct",
-    "DenseSVD / Auto ignore k and may return all triplets: accepted, the reconstruction is then compared with A",
+    "DenseSVD / Auto ignore k and `which` and may return all triplets: accepted, the reconstruction is then compared with A",
+    "declared self-adjoint operators: cola.SelfAdjoint(Dense(A)) for Hermitian catalog matrices A = V diag(lam) V^H with "
+    "distinct non-zero |lam| (TLC: SelfAdjointOK); every algorithm, every k, which in {LM, SM}, with and without the "
+    "annotation; which = SM is compared with TLC's sum of the k smallest triplets",
+    "scaled copies: pinv(c A) b is compared with x / c for c = 1e-7 and 1e3 by the scaling law LeastSquares.tla!PinvScalingLaw, "
+    "which TLC checks on every catalog case for the scales whose normal equations fit into 32 bits (2, -3, 1/2, 10, 1/10, i, "
+    "(1+i)/2, 1e-3, partly 1e3; never 1e-7); c A is rounded to the working precision (relative perturbation <= eps); "
+    "single-precision tolerances 1e-4 (CG(tol=1e-6, max_iters=200)) and 1e-5 (others), relative to 1 + max|x| after undoing "
+    "the scale.  Measured (quick catalog): unchanged tree with the jitter defect repaired <= 7.9e-7 (f32 CG), <= 1.6e-7 (f32 "
+    "LSTSQ), <= 4.6e-15 (f64); a ridge term 1e-6*max(shape) inside the CG system gives 0.2 .. 1.0 (f32, c <= 1e-3) and "
+    "0.024 .. 0.74 (f64, c = 1e-7)",
+    "numeric family (harness-side predicate, not TLC): single-precision operators U diag(s) V^H, dims 20..60, Haar U, V, "
+    "s geometric in [1/cond, 1] (so ||A||_2 = 1), cond in {10, 30, 100}, Gaussian right-hand sides (inconsistent for tall "
+    "A), CG() with the library defaults and LSTSQ(); decided by the projection form of LeastSquares.tla!IsMinNormLsq in "
+    "double precision on the operator cola received: ||P_range(A)(A x - b)|| <= tol*sigma_min*||x|| and ||x - P_range(A^H) x|| "
+    f"<= tol*||x|| with tol = {NUM_C:g}*eps*cond^2, eps = 2^-23; sigma_min and cond come from NumPy's SVD and enter only "
+    "the tolerance.  Measured over 360 operators: repaired tree <= 1.07 (lsq) / 0.97 (min-norm) eps cond^2, unrepaired "
+    "jitter <= 10.6, ridge inside CG >= 144 eps cond^2",
     "larger random matrices (up to 120 x 90): expected values are the harness's own construction U Sigma V^H and NumPy's "
     "pseudo-inverse (harness-side predicates, not TLC); Lanczos only for k <= 3 on matrices with min(m,n) <= 12",
     "TLC's printed values must equal an exact integer mirror of the formulas (harness/lsqfam.py), else machinery failure",
 ]
+JVM_SMALL = "-XX:ParallelGCThreads=2 -XX:CICompilerCount=2 -XX:TieredStopAtLevel=1"
+N_NEG = 7       # negative controls: 2 svd, 1 pinv, 2 declared self-adjoint, 2 wrong scaling laws
 
 
-def build_jobs(tier):
-    scases, sdrop = lsqfam.svd_cases(tier)
-    sout, sstats = lsqfam.run_svd_model(PROP + "s", scases)
+def run_models(tier):
+    """All TLC runs (two models, seven negative controls) concurrently.  Returns the jobs and statistics."""
+    from concurrent.futures import ThreadPoolExecutor
+    scases, sdrop = lsqfam.svd_cases_x(tier)
+    pcases, pdrop = lsqfam.pinv_cases_x(tier)
+    # nine small JVMs at once: without these limits their JIT / GC threads (one set per core each) thrash the machine
+    old_opts = os.environ.get("JAVA_TOOL_OPTIONS")
+    os.environ["JAVA_TOOL_OPTIONS"] = ((old_opts + " ") if old_opts else "") + JVM_SMALL
+    try:
+        with ThreadPoolExecutor(max_workers=6) as ex:
+            fs = ex.submit(lsqfam.run_svd_model_x, PROP + "s", scases)
+            fp = ex.submit(lsqfam.run_pinv_model_x, PROP + "p", pcases)
+            negs = [ex.submit(lsqfam.svd_negative_control, PROP, scases), ex.submit(lsqfam.pinv_negative_control, PROP, pcases),
+                    ex.submit(lsqfam.svd_selfadjoint_negative_control, PROP, scases),
+                    ex.submit(lsqfam.pinv_law_negative_control, PROP, pcases)]
+            (sout, sstats), (pout, pstats) = fs.result(), fp.result()
+            neg = [f.result() for f in negs]
+    finally:
+        if old_opts is None:
+            os.environ.pop("JAVA_TOOL_OPTIONS", None)
+        else:
+            os.environ["JAVA_TOOL_OPTIONS"] = old_opts
     sjobs = []
     for c in scases:
         r = len(c["sig"])
-        sjobs.append({"id": c["id"], "A": sout[(c["id"], 1)]["A"], "sig": sout[(c["id"], 1)]["sig"], "complex": c["complex"],
-                      "best": {str(k): sout[(c["id"], k)]["best"] for k in range(1, r + 1)}})
-    pcases, pdrop = lsqfam.pinv_cases(tier)
-    pout, pstats = lsqfam.run_pinv_model(PROP + "p", pcases)
+        first = sout[(c["id"], 1)]
+        sjobs.append({"id": c["id"], "A": first["A"], "sig": first["sig"], "complex": c["complex"],
+                      "best": {str(k): sout[(c["id"], k)]["best"] for k in range(1, r + 1)},
+                      "tail": {str(k): sout[(c["id"], k)]["tail"] for k in range(1, r + 1)},
+                      "sa": bool(first["sa"]), "indefinite": bool(first["indefinite"]), "negdom": bool(first["negdom"])})
     by = {}
     for c in pcases:
         mat = c["id"].rsplit("/", 1)[0]
@@ -316,7 +524,28 @@ def build_jobs(tier):
         j = by.setdefault(mat, {"mat": mat, "kind": c["kind"], "params": c["params"], "A": rec["A"], "complex": False, "cols": []})
         j["cols"].append({"id": c["id"], "b": rec["b"], "x": rec["x"]})
         j["complex"] = j["complex"] or c["complex"]
-    return sjobs, list(by.values()), scases, pcases, sstats, pstats, sdrop + pdrop
+    pjobs = []
+    for j in by.values():
+        for scn, prec in PINV_VARIANTS:
+            if scn != "1" and j["kind"] not in SCALABLE_KINDS:
+                continue
+            pjobs.append(dict(j, scale=scn, prec=prec))
+    return sjobs, pjobs, scases, pcases, sstats, pstats, sdrop + pdrop, neg
+
+
+def build_jobs(tier):
+    return run_models(tier)[:7]
+
+
+def _work(item):
+    kind, x = item
+    if kind == "svd":
+        return observe_svd(x) + ([], )
+    if kind == "pinv":
+        return observe_pinv(x) + ([], )
+    if kind == "random":
+        return observe_random(x) + ([], )
+    return observe_numeric(x)
 
 
 def _pool(fn, items):
@@ -330,38 +559,54 @@ def _pool(fn, items):
 
 def run(tier):
     t0 = time.time()
-    sjobs, pjobs, scases, pcases, sstats, pstats, dropped = build_jobs(tier)
-    neg = lsqfam.svd_negative_control(PROP, scases) + lsqfam.pinv_negative_control(PROP, pcases)
-    if neg != 3:
-        common.machinery_failure(PROP, f"negative controls: the models rejected {neg} of 3 corrupted catalogs")
-    viol, n_svd, n_pinv, n_rand = [], 0, 0, 0
-    for v, k in _pool(observe_svd, sjobs):
-        viol += v
-        n_svd += k
-    for v, k in _pool(observe_pinv, pjobs):
-        viol += v
-        n_pinv += k
+    sjobs, pjobs, scases, pcases, sstats, pstats, dropped, neg = run_models(tier)
+    if sum(neg) != N_NEG:
+        common.machinery_failure(PROP, f"negative controls: the models rejected {neg} (svd, pinv, self-adjoint, scaling law) "
+                                       f"of {N_NEG} corrupted catalogs")
     specs = random_specs(tier, common.seed())
-    for v, k in _pool(observe_random, specs):
+    nspecs = numeric_specs(tier, common.seed())
+    items = [("svd", j) for j in sjobs] + [("pinv", j) for j in pjobs] + [("random", x) for x in specs] + \
+            [("numeric", x) for x in nspecs]
+    _cola()                     # import once, before the workers are forked
+    viol, cnt, meas = [], {"svd": 0, "pinv": 0, "random": 0, "numeric": 0}, []
+    for (kind, _), (v, k, ms) in zip(items, _pool(_work, items)):
         viol += v
-        n_rand += k
+        cnt[kind] += k
+        meas += ms
+    n_svd, n_pinv, n_rand, n_num = cnt["svd"], cnt["pinv"], cnt["random"], cnt["numeric"]
     shapes = {}
     for j in sjobs:
         key = shape_class(j["A"]["r"], j["A"]["c"]) + ("/complex" if j["complex"] else "/real")
         shapes[key] = shapes.get(key, 0) + 1
+    worst = {}
+    for algname, cond, a, b in meas:
+        w = worst.setdefault(f"{algname}/cond={cond}", [0.0, 0.0])
+        w[0], w[1] = max(w[0], round(a, 4)), max(w[1], round(b, 4))
+    sa_jobs = [j for j in sjobs if j["sa"]]
     cov = {
         "states": sstats["states"] + pstats["states"], "transitions": sstats["transitions"] + pstats["transitions"],
         "traces_validated_against_impl": len(sjobs) + len(pcases),
-        "evaluations": n_svd + n_pinv + n_rand, "svd_calls": n_svd, "pinv_calls": n_pinv, "random_calls": n_rand,
+        "evaluations": n_svd + n_pinv + n_rand + n_num, "svd_calls": n_svd, "pinv_calls": n_pinv, "random_calls": n_rand,
+        "numeric_calls": n_num,
         "distinct_nontrivial": sum(1 for j in sjobs if len(j["sig"]) >= 2) + sum(1 for j in pjobs if j["A"]["r"] != j["A"]["c"]),
-        "rule": "svd: one TLC state = (matrix, k), replayed with DenseSVD / Auto / Lanczos / Lanczos with surplus iterations; "
-                "pinv: one TLC state = (matrix, b), replayed with the default / Auto / LSTSQ / CG, alone and batched; non-trivial = "
-                "at least two singular values / non-square",
-        "samples": [j["id"] for j in sjobs[:: max(1, len(sjobs) // 3)][:3]] + [j["mat"] for j in pjobs[:: max(1, len(pjobs) // 3)][:3]],
+        "rule": "svd: one TLC state = (matrix, k), replayed with DenseSVD / Auto / Lanczos / Lanczos with surplus iterations "
+                "(declared self-adjoint operators: which = LM and SM, with and without the annotation); "
+                "pinv: one TLC state = (matrix, b), replayed with the default / Auto / LSTSQ / CG, alone and batched, on the "
+                "matrix and on its scaled / single-precision copies (scaling law); non-trivial = at least two singular "
+                "values / non-square",
+        "samples": [j["id"] for j in sjobs[:: max(1, len(sjobs) // 3)][:3]] + [j["id"] for j in sa_jobs[:2]]
+                   + [f"{j['mat']} * {j['scale']} [{j['prec']}]" for j in pjobs[:: max(1, len(pjobs) // 3)][:3]],
         "exhaustive": False, "svd_matrices": len(sjobs), "svd_matrices_by_class": shapes,
-        "pinv_matrices": len(pjobs), "pinv_cases": len(pcases),
-        "pinv_kinds": sorted({j["kind"] for j in pjobs}), "random_matrices": len(specs), "dropped_overflow": dropped,
-        "tlc_runs": [dict(sstats, module="MC_Svd"), dict(pstats, module="MC_Pinv")], "negative_controls_rejected": neg,
+        "svd_declared_selfadjoint": len(sa_jobs), "svd_selfadjoint_indefinite": sum(1 for j in sa_jobs if j["indefinite"]),
+        "svd_selfadjoint_negative_dominates": sum(1 for j in sa_jobs if j["negdom"]),
+        "pinv_matrices": len({j["mat"] for j in pjobs}), "pinv_operator_variants": len(pjobs), "pinv_cases": len(pcases),
+        "pinv_variants": [f"{a} [{b}]" for a, b in PINV_VARIANTS],
+        "pinv_kinds": sorted({j["kind"] for j in pjobs}), "random_matrices": len(specs), "numeric_matrices": len(nspecs),
+        "numeric_worst_in_eps_cond2": {k: {"lsq": v[0], "min_norm": v[1]} for k, v in sorted(worst.items())},
+        "numeric_tolerance_in_eps_cond2": NUM_C,
+        "scaling_law_instances_checked_by_tlc": pstats.get("scaling_law_instances_by_scale", {}),
+        "dropped_overflow": dropped,
+        "tlc_runs": [dict(sstats, module="MC_Svd"), dict(pstats, module="MC_Pinv")], "negative_controls_rejected": sum(neg),
         "checker_cmd": "tlc MC_Svd.tla ; tlc MC_Pinv.tla (LeastSquares.tla, Mat.tla, generated SvdCatalog.tla / PinvCatalog.tla)",
     }
     return common.finish(PROP, tier, t0, cov, viol, ASSUMPTIONS)
@@ -373,10 +618,14 @@ def replay(path):
     if "svd_job" in r:
         job = r["svd_job"]
         res, _ = observe_svd(job)
-        res = [x for x in res if x.attrs.get("k") == r["k"] and x.attrs.get("alg") == r["alg"]]
+        res = [x for x in res if x.attrs.get("k") == r["k"] and x.attrs.get("alg") == r["alg"]
+               and x.attrs.get("which") == r.get("which", "LM")
+               and x.attrs.get("declared") == ("SelfAdjoint" if r.get("declared") else "none")]
     elif "pinv_job" in r:
         res, _ = observe_pinv(r["pinv_job"])
         res = [x for x in res if x.attrs.get("alg") == r["alg"]]
+    elif "numeric" in r:
+        res, _, _ = observe_numeric(r["numeric"])
     else:
         res, _ = observe_random(r["random"])
     for x in res:
